@@ -134,6 +134,10 @@ def sync_records(tier, seed):
     # every 16-bit frame for the cheap drivers (as generic commands)
     from dali import command, frame
     all16 = [command.from_frame(frame.ForwardFrame(16, f)) for f in (range(0, 65536, 97) if tier == "quick" else range(65536))]
+    # 24-bit frames: every first byte (leading zero digits, special and reserved ranges) with a few tails
+    tails = (0x0000, 0xFE30, 0x8001, 0xFFFF) if tier == "quick" else (0x0000, 0xFE30, 0x8001, 0xFFFF, 0x0A0B, 0x1D00, 0x00FF, 0x7F80)
+    all24 = [command.from_frame(frame.ForwardFrame(24, (b << 16) | t)) for b in range(256) for t in tails]
+    all16 = all16 + all24
     # daliserver through a fake socket
     import dali.driver.daliserver as DS
 
